@@ -3,47 +3,59 @@ C04 — Parser descriptors state exactly what a CATS document declares.
 
 Property theorems over `Model/Cats/{Lexer,Parser,Printer}.lean` (the language of `catbuffer.lark` and the objects
 `CatbufferTransformer` builds) on cats-a's `Model/Cats/Syntax.lean` (`toLegacy`, `render`). Helper lemmas are in
-`Proofs/Cats*.lean`; the well-formedness predicates (`WFDeclsA` and its parts) in `Proofs/CatsWF.lean`.
+`Proofs/Cats*.lean`; the well-formedness predicates (`WFDeclsC` and its parts) in `Proofs/CatsWF.lean`.
 
 PROVED (character level, for all inputs of the stated shape, no size bounds):
-* `parse_render` — `∀ ds, WFDeclsA ds → ds ≠ [] → parse (print ds) = ok ds`: the headline, for any mix and order of
-  aliases, enums and structs, every member form, every attribute form on enums / structs / members; it goes through
-  the whole model (physical lines, `_NL`, the `Indenter`, blocks, the statement loops, every line parser and terminal
-  scanner). `parse_render_plain`, `parse_render_enum`, `parse_render_struct`, `parse_render_alias` are special cases.
+* `parse_render` — `∀ ds, WFDeclsC ds → ds ≠ [] → parse (print ds) = ok ds`: the headline, for any mix and order of
+  aliases, enums and structs, every member form, every attribute form on enums / structs / members, and a
+  documentation comment in normal form on any declaration, enum value and member; it goes through the whole model
+  (physical lines, `_NL`, merging of consecutive `#` lines into one comment token, the `Indenter`, blocks, the statement
+  loops with their pending comment, `Comment.__init__`, every line parser and terminal scanner).
+  `parse_render_no_comments` (`WFDeclsA`), `parse_render_plain` (`WFDecls`), `parse_render_enum`, `parse_render_struct`,
+  `parse_render_alias` are special cases.
+* comments: `parsed_comment_normal` (EVERY comment `Comment.__init__` builds is in normal form, whatever the token
+  text), `normal_comment_iff` (the normal form in plain words: every piece between `\n` is empty or has no `\n`, no
+  leading and no trailing `#`, blank, tab, carriage return; the text is not empty), `comment_roundtrip` and
+  `comment_roundtrip_indented` (the `#` lines the printer emits — at column 0, or each continuation line behind a tab —
+  are normalised back to the comment), `comment_lines_one_token` (the lexer turns the `#` lines before a code line into
+  ONE comment line whose text is the first line followed by the other lines with their indentation).
 * line level: `parse_render_alias_line`, `parse_render_enum_header`, `parse_render_enum_value`,
   `parse_render_struct_header`, `parse_render_member` (all member forms), `parse_render_struct_attribute`,
   `parse_render_field_attribute`.
 * `legacy_of_parse` (descriptors of the parsed text = descriptors of what was printed), as a corollary.
 * `parse_output_wf`: for every document, the declarations of a successful parse are well-formed (names, widths,
-  operators, attributes; comments unconstrained).
-* `print_parse_fixpoint`: for every document that parses to comment-free declarations (no member-less struct, at
-  least one declaration), `parse (print (parse doc)) = parse doc`; well-formedness is derived, not assumed.
-  (`print_parse_fixpoint_partial` is the older form with `WFDeclsA ds` as a hypothesis.)
+  operators, attributes, comments in normal form).
+* `print_parse_fixpoint`: for EVERY document that parses to at least one declaration and to no member-less struct,
+  `parse (print (parse doc)) = parse doc`, comments included; well-formedness is derived from the parse, not assumed.
+* numerals: `decimal_numeral_roundtrip`, `hex_numeral_value` (`0x` + any leading zeros + the upper-case digits of `n`
+  reads as `n`, for every `n`), `decimal_leading_zeros` (zeros + decimal digits of `n` reads as `n`),
+  `hex_dec_same_value` (both spellings of every `n` scan to the same value), `hex_lowercase_not_numeral` (lower-case
+  digits are not in `HEX_NUMBER`: the scanner stops after the `0`).
 * trivia: `parse_crlf` (for EVERY document without carriage returns, comments included: `\r\n` line ends give the
-  same result, errors included), `parse_blank_lines` (with or without the empty line between printed declarations),
+  same result, errors included), `parse_blank_lines` / `parse_blank_lines_comments` (with or without the empty line
+  between printed declarations, the latter with documentation comments),
   `tab_is_four_spaces` / `tab_or_four_spaces_same_line` (a tab in the indentation of a code line = four blanks, at
-  the level of the logical line), `decimal_numeral_roundtrip`, `hex_dec_same_value` (instances).
-
-* `comment_roundtrip`: at the level of one comment, the `#` lines the printer emits (one line per piece, an empty `#`
-  line per paragraph break) are normalised by `Comment.ofString` (= `Comment.__init__`) back to the comment, for every
-  comment in normal form.
+  the level of the logical line).
 
 NOT PROVED:
-* comments inside `parse_render`: `WFDeclsA` requires `comment = none` everywhere. That comment lines of a document
-  are merged into one token, attached to the following declaration / member, and that free comments are dropped, is
-  modelled and tested by the correspondence run, but the document-level theorem does not cover it (`comment_roundtrip`
-  is the piece about the comment text itself).
-* `print_parse_fixpoint` for documents with comments (same gap as above).
-* hexadecimal numerals in general (no upper-case hex printer exists to state it against), blank lines inside
-  declarations and tabs-vs-blanks at document level (only the line-level statement), trailing blanks, loose token
-  spacing. These are covered by the correspondence run only.
+* `print_parse_fixpoint` keeps two hypotheses: at least one declaration (the printer emits the empty text for `[]`,
+  which is not a document) and no member-less struct (the grammar admits `struct X` whose body consists of comments
+  only; the printer emits the header alone, which does not parse). Both are necessary for the statement as it is.
+* free comments (a comment followed by another comment token or by the end of the input): `free_comment_dropped`
+  states at the level of the statement loop that they become `comment` items which `declsOf` leaves out, and
+  `print_parse_fixpoint` covers every document that contains them; but there is no character-level layout theorem
+  with free comments in it (printed documents contain none, so `parse_render` does not meet this case).
+* blank lines inside declarations and tabs-vs-blanks at document level (only the line-level statement), trailing
+  blanks, loose token spacing. These are covered by the correspondence run only.
 -/
 import SymbolVerif.Model.Cats.Parser
 import SymbolVerif.Model.Cats.Printer
 import SymbolVerif.Proofs.CatsAttrDocument
+import SymbolVerif.Proofs.CatsCommentDocument
 import SymbolVerif.Proofs.CatsCrlf
 import SymbolVerif.Proofs.CatsComment
 import SymbolVerif.Proofs.CatsOutput
+import SymbolVerif.Proofs.CatsHex
 namespace SymbolVerif.C04
 open SymbolVerif.Cats SymbolVerif.Cats.Lexer SymbolVerif.Cats.Parser
 
@@ -73,12 +85,41 @@ theorem decimal_numeral_roundtrip (n : Nat) (r : Chars) (hr : ∀ c, r.head? = s
     number ((toString n).toList ++ r) = some (n, r) :=
   number_repr n r hr
 
-/-- hexadecimal and decimal spellings denote the same number (instances; the general statement needs an upper-case
-    hexadecimal printer, which the repository does not have). -/
-theorem hex_dec_same_value :
-    number "0xFF".toList = number "255".toList ∧ number "0x0A".toList = number "10".toList ∧
-    number "0x00".toList = number "000".toList ∧ number "0xFFFFFFFFFFFFFFFF".toList = number "18446744073709551615".toList := by
-  decide
+/-- **hexadecimal numerals in general**: `0x`, any number of leading zeros and the upper-case hexadecimal digits of `n`
+    (`hexDigits n`, i.e. `'%X' % n`) scan to `n` (`HEX_NUMBER`, `int(string, 16)`), whatever follows as long as that is
+    not a further hexadecimal digit. -/
+theorem hex_numeral_value (k n : Nat) (r : Chars) (hr : ∀ c, r.head? = some c → isHexDigit c = false) :
+    number ('0' :: 'x' :: (List.replicate k '0' ++ hexDigits n ++ r)) = some (n, r) :=
+  number_hexDigits k n r hr
+
+/-- decimal numerals with leading zeros: zeros followed by the decimal digits of `n` scan to `n` -/
+theorem decimal_leading_zeros (k n : Nat) (r : Chars) (hr : ∀ c, r.head? = some c → isDigit c = false ∧ c ≠ 'x') :
+    number (List.replicate k '0' ++ (toString n).toList ++ r) = some (n, r) :=
+  number_zeros_repr k n r hr
+
+/-- hexadecimal and decimal spellings of a number denote the same value, with any leading zeros on either side, at
+    the end of a line or before anything that continues neither numeral (a blank, `)`, `,` …). -/
+theorem hex_dec_same_value (k k' n : Nat) (r : Chars)
+    (hr : ∀ c, r.head? = some c → isHexDigit c = false ∧ c ≠ 'x') :
+    number ('0' :: 'x' :: (List.replicate k '0' ++ hexDigits n ++ r)) =
+      number (List.replicate k' '0' ++ (toString n).toList ++ r) := by
+  rw [number_hexDigits k n r (fun c hc => (hr c hc).1), number_zeros_repr k' n r]
+  intro c hc
+  refine ⟨?_, (hr c hc).2⟩
+  have := (hr c hc).1
+  simp only [isHexDigit, Bool.or_eq_false_iff] at this
+  exact this.1
+
+/-- lower-case hexadecimal digits are not part of `HEX_NUMBER` (`"0x" ("A".."F" | DIGIT)+`): `0xff` is the numeral `0`
+    followed by `xff`, which no rule of the grammar continues -/
+theorem hex_lowercase_not_numeral (c : Char) (hc : isHexDigit c = false) (r : Chars) :
+    number ('0' :: 'x' :: c :: r) = some (0, 'x' :: c :: r) :=
+  number_lowercase_hex c hc r
+
+example : hexDigits 255 = "FF".toList ∧ hexDigits 0 = "0".toList ∧ hexDigits 48879 = "BEEF".toList := by
+  refine ⟨?_, ?_, ?_⟩ <;> (simp [hexDigits, hexDigit]; try decide)
+
+example : number "0x00FF)".toList = some (255, [')']) ∧ number "0255".toList = some (255, []) := by decide
 
 /-! ### line level: every declaration and member form is read back from its printed line -/
 
@@ -112,9 +153,10 @@ theorem parse_render_member (m : Member) (h : WFMember m) : parseStructLine fals
 
 /-! ### document level -/
 
-/-- **parse_render**: for every non-empty list of well-formed declarations without comments (`WFDeclsA`,
-    `Proofs/CatsWF.lean`) the text the printer emits parses back to exactly these declarations. Character level,
-    through the whole model: line splitting, indentation events, blocks, statement loops and every line parser.
+/-- **parse_render**: for every non-empty list of well-formed declarations (`WFDeclsC`, `Proofs/CatsWF.lean`) the
+    text the printer emits parses back to exactly these declarations. Character level, through the whole model: line
+    splitting, merging of `#` lines into comment tokens, indentation events, blocks, statement loops, comment
+    normalisation and every line parser.
 
     Covered: aliases (all 8 integer types, `binary_fixed(n)`), enums with any number of values (zero included)
     and any number of `@is_bitwise` lines, structs (plain / `abstract` / `inline`) with any non-empty list of
@@ -124,10 +166,20 @@ theorem parse_render_member (m : Member) (h : WFMember m) : parseStructLine fals
     attributes (`@is_aligned`, `@is_size_implicit`, `@size(p)`, `@initializes(p, C)`, `@discriminator(p, …)`,
     `@comparer(p[!ripemd_keccak_256], …)`, any number, any order) and member attributes on plain members and
     `__value__` (`@is_byte_constrained`, `@alignment(n[, [not] pad_last])`, `@sort_key(p)`, `@sizeref(p[, n])`),
-    with the exact value lists lark produces (`None` placeholders). In any mix and order.
-    Not covered: comments (attached or free), see the header. -/
-theorem parse_render (ds : Schema) (h : WFDeclsA ds) (hne : ds ≠ []) : parse (Printer.print ds).toList = .ok ds :=
-  parse_printA ds h hne
+    with the exact value lists lark produces (`None` placeholders); and a documentation comment — any comment in
+    the normal form of `Comment.__init__` (`Comment.NormalComment`, see `normal_comment_iff`), one or several
+    paragraphs — on every declaration (printed before its attribute lines), every enum value and every member
+    (printed before the member's attribute lines). In any mix and order.
+    Not covered: free comments (the printer emits none), see the header. -/
+theorem parse_render (ds : Schema) (h : WFDeclsC ds) (hne : ds ≠ []) : parse (Printer.print ds).toList = .ok ds :=
+  parse_printC ds h hne
+
+/-- declarations without comments are a special case of `WFDeclsC` -/
+theorem wfDeclsC_of_wfDeclsA (ds : Schema) (h : WFDeclsA ds) : WFDeclsC ds := fun d hd => wfDeclC_of_A d (h d hd)
+
+/-- the comment-free special case (`WFDeclsA`: attributes, no comments) -/
+theorem parse_render_no_comments (ds : Schema) (h : WFDeclsA ds) (hne : ds ≠ []) : parse (Printer.print ds).toList = .ok ds :=
+  parse_render ds (wfDeclsC_of_wfDeclsA ds h) hne
 
 /-- the attribute-free special case (`WFDecls`), kept because the rejection theorems of C11 are stated over it -/
 theorem parse_render_plain (ds : Schema) (h : WFDecls ds) (hne : ds ≠ []) : parse (Printer.print ds).toList = .ok ds :=
@@ -162,33 +214,58 @@ theorem parse_render_alias (a : Alias) (h : WFAlias a) (hc : a.comment = none) :
   parse_render_plain [.alias a] (by intro d hd; simp only [List.mem_singleton] at hd; subst hd; exact .alias a h hc) (by simp)
 
 /-- the descriptors of the parsed text are the descriptors of the declarations that were printed -/
-theorem legacy_of_parse (ds : Schema) (h : WFDeclsA ds) (hne : ds ≠ []) :
+theorem legacy_of_parse (ds : Schema) (h : WFDeclsC ds) (hne : ds ≠ []) :
     (parse (Printer.print ds).toList).map (fun r => r.map Decl.toLegacy) = .ok (ds.map Decl.toLegacy) := by
   rw [parse_render ds h hne]
   rfl
 
 /-- **the parser only produces well-formed declarations**: for EVERY document, each declaration of a successful parse
     has names in their lexical classes, one of the eight integer types wherever an integer type stands, a known
-    condition operator, known attributes with the value lists of the grammar; comments are unconstrained (`OutDecl`,
-    `Proofs/CatsOutput.lean`). -/
+    condition operator, known attributes with the value lists of the grammar, and every comment it carries (on the
+    declaration, on an enum value, on a member) is in normal form (`OutDecl`, `Proofs/CatsOutput.lean`: the same as
+    `WFDeclC` except that a struct may be member-less). -/
 theorem parse_output_wf (doc : Chars) (ds : Schema) (h : parse doc = .ok ds) : ∀ d ∈ ds, OutDecl d :=
   parse_out doc ds h
 
 /-- **print_parse_fixpoint**: for EVERY document — any spacing, blank lines, CRLF, tabs or blanks, hex or decimal
-    numerals, any order of statements, imports — if it parses to declarations that carry no comments (and no struct
-    is member-less, which the grammar admits only for a body made of comments or of a lone indentation before the end
-    of the input), then printing these declarations and parsing the printed text yields the same declarations. The
+    numerals, any order of statements, imports, comments of any shape, attached or free — if it parses to at least
+    one declaration and no struct is member-less (which the grammar admits only for a body made of comments), then
+    printing these declarations and parsing the printed text yields the same declarations, comments included. The
     well-formedness needed by `parse_render` is not assumed: it is derived from the successful parse. -/
 theorem print_parse_fixpoint (doc : Chars) (ds : Schema) (hparse : parse doc = .ok ds) (hne : ds ≠ [])
-    (hc : ∀ d ∈ ds, NoComments d) (hm : ∀ d ∈ ds, HasMembers d) : parse (Printer.print ds).toList = .ok ds :=
-  parse_render ds (fun d hd => wfDeclA_of_out d (parse_out doc ds hparse d hd) (hc d hd) (hm d hd)) hne
+    (hm : ∀ d ∈ ds, HasMembers d) : parse (Printer.print ds).toList = .ok ds :=
+  parse_render ds (fun d hd => wfDeclC_of_out d (parse_out doc ds hparse d hd) (hm d hd)) hne
 
-/-- the same with the well-formedness as a hypothesis (kept for callers that have it) -/
-theorem print_parse_fixpoint_partial (doc : Chars) (ds : Schema) (_hparse : parse doc = .ok ds) (h : WFDeclsA ds)
-    (hne : ds ≠ []) : parse (Printer.print ds).toList = .ok ds :=
-  parse_render ds h hne
+/-- why `HasMembers` is there: a struct whose body is a comment parses to a member-less struct, whose printed form
+    (the header alone) is rejected -/
+example : (parseString "struct Foo\n\t# only a comment\n").toOption = some [.struct { name := "Foo", fields := [] }] ∧
+    (parseString (Printer.print [.struct { name := "Foo", fields := [] }])).toOption = none := by decide
 
 /-! ### comments -/
+
+/-- **every comment the parser builds is in normal form**: `Comment.__init__` applied to any token text gives a
+    comment whose pieces are empty or stripped of `#`, blanks, tabs and carriage returns at both ends, and which is
+    not the empty text. -/
+theorem parsed_comment_normal (s : String) : Comment.NormalComment (Comment.ofString s) :=
+  Comment.normalComment_ofString s
+
+/-- the normal form in plain words: every piece of the text between two `\n` is empty (a paragraph break) or is a
+    non-empty run without `\n` whose first and last characters are none of `#`, blank, tab, carriage return; and the
+    text is not empty. -/
+theorem normal_comment_iff (c : Comment) :
+    Comment.NormalComment c ↔
+      (∀ s ∈ Comment.splitLines c.parsed.toList, s = [] ∨
+        (s ≠ [] ∧ '\n' ∉ s ∧ (∀ x, s.head? = some x → Comment.isStripChar x = false) ∧
+          (∀ x, s.getLast? = some x → Comment.isStripChar x = false))) ∧ c.parsed.toList ≠ [] := by
+  unfold Comment.NormalComment
+  rw [Comment.clines_splitLines_ne_nil]
+  rfl
+
+/-- a two-paragraph comment with punctuation is in normal form -/
+example : Comment.NormalComment ⟨"size of the entity\n[key] second paragraph"⟩ := by
+  have := parsed_comment_normal "# size of the entity\n#\n# [key] second paragraph"
+  rwa [show Comment.ofString "# size of the entity\n#\n# [key] second paragraph" =
+    ⟨"size of the entity\n[key] second paragraph"⟩ by decide] at this
 
 /-- the text of a comment survives printing and re-reading: for a comment whose pieces (separated by `\n`) are
     empty or carry no leading / trailing `#`, blank, tab or carriage return — which is what `Comment.__init__`
@@ -198,6 +275,37 @@ theorem comment_roundtrip (c : Comment)
     (hne : Comment.clines (Comment.splitLines c.parsed.toList) ≠ []) :
     Comment.ofString (String.ofList (Comment.joinNL ((Printer.commentLines (some c)).map String.toList))) = c :=
   Comment.normalise_commentLines c hsegs hne
+
+/-- the same for the comment of a member or enum value, whose `#` lines stand behind a tab: the text of the token is
+    the first line without its indentation followed by the other lines with theirs (`Comment.deco`), and it is
+    normalised back to the comment -/
+theorem comment_roundtrip_indented (c : Comment) (hc : Comment.NormalComment c) :
+    Comment.ofString (String.ofList (Comment.joinNL (Comment.deco ['\t']
+      (Comment.clines (Comment.splitLines c.parsed.toList))))) = c :=
+  Comment.normalise_deco c hc ['\t'] (by decide) (by decide)
+
+/-- **consecutive `#` lines are one token**: in a text of clean printed lines, the `#` lines in front of a code line
+    (all at its indentation) become ONE comment line that spans their physical lines; its text is the first `#` line
+    followed, after `\n`, by the other lines with their indentation; the code line follows as its own logical line. -/
+theorem comment_lines_one_token (i : Bool) (doc : List Chars) (t : Chars) (rest : List QLine)
+    (hclean : ∀ p ∈ QLine.code i doc t :: rest, p.Clean) :
+    logicalLines (unlinesC ((QLine.code i doc t :: rest).flatMap QLine.phys)) =
+      .ok (expQ 1 (QLine.code i doc t :: rest), 0) :=
+  logicalLines_unlinesQ i doc t rest hclean
+
+/-- **free comments are dropped** (statement-loop level): a comment token that is followed by another comment token, or
+    by the end of the input, attaches to nothing; the loop files it as a `comment` item, and `declsOf` (the declarations
+    the parser returns) leaves such items out. A comment followed by a declaration — with or without blank lines in
+    between, which the lexer has already removed — is the pending comment of that declaration instead
+    (`parse_render`). -/
+theorem free_comment_dropped (c1 c2 : LLine) (hk1 : c1.kind = .comment) (hk2 : c2.kind = .comment) (rest : List Block)
+    (acc items : List Item) (c : Comment) :
+    topLoop (⟨c1, none⟩ :: ⟨c2, none⟩ :: rest) {} acc = topLoop (⟨c2, none⟩ :: rest) {} (.comment (commentOf c1) :: acc) ∧
+    topLoop [⟨c1, none⟩] {} acc = .ok (acc.reverse ++ [.comment (commentOf c1)]) ∧
+    declsOf (.comment c :: items) = declsOf items := by
+  refine ⟨?_, ?_, rfl⟩
+  · simp only [topLoop, hk1, hk2, flushComment]
+  · simp only [topLoop, hk1, flushComment, List.reverse_cons]
 
 /-! ### trivia -/
 
@@ -211,6 +319,11 @@ theorem parse_crlf (doc : Chars) (h : '\r' ∉ doc) : parse (crlf doc) = parse d
 theorem parse_blank_lines (d : Decl) (rest : List (Bool × Decl)) (hd : WFDeclA d) (hrest : ∀ bd ∈ rest, WFDeclA bd.2) :
     parse (unlinesC ((specPLines (docSpecsWith ((false, d) :: rest))).map PLine.chars)) = .ok (d :: rest.map (·.2)) :=
   parse_layout_with_blanks d rest hd hrest
+
+/-- the same with documentation comments: the empty line (if any) stands before the comment lines of a declaration -/
+theorem parse_blank_lines_comments (d : Decl) (rest : List (Bool × Decl)) (hd : WFDeclC d) (hrest : ∀ bd ∈ rest, WFDeclC bd.2) :
+    parse (unlinesC ((qspecPLines (docSpecsWithC ((false, d) :: rest))).flatMap QLine.phys)) = .ok (d :: rest.map (·.2)) :=
+  parse_layout_with_blanksC d rest hd hrest
 
 /-- a tab inside the indentation of a code line can be written as four blanks: the physical line contributes the same
     logical line (text and indentation), whatever was read before it. -/
@@ -250,5 +363,35 @@ example : WFDecls [
       intro v hv; simp only [List.mem_singleton] at hv; subst hv; exact .mk "XY" 7 hXY))
   · exact .struct _ (.mk none "Ef" _ (by simp [structDispositions]) hEf (by simp) (by
       intro m hm; simp only [List.mem_singleton] at hm; subst hm; exact .unnamedInline "Ab" hAb))
+
+/-- a documented struct with a documented member -/
+def documentedStruct : Decl :=
+  .struct { name := "Ef", comment := some ⟨"an entity\n[v2] second paragraph"⟩, fields := [.inlinePlaceholder "Ab" (some ⟨"the header"⟩)] }
+
+/-- it satisfies the hypotheses of `parse_render` (comments included) -/
+example : WFDeclsC [documentedStruct] := by
+  have hAb : IsTypeName "Ab" := ⟨'A', 'b', [], rfl, by decide, by decide, by decide⟩
+  have hEf : IsTypeName "Ef" := ⟨'E', 'f', [], rfl, by decide, by decide, by decide⟩
+  have hc1 : WFComment (some ⟨"an entity\n[v2] second paragraph"⟩) := by
+    intro x hx; cases hx
+    have := parsed_comment_normal "# an entity\n#\n# [v2] second paragraph"
+    rwa [show Comment.ofString "# an entity\n#\n# [v2] second paragraph" = ⟨"an entity\n[v2] second paragraph"⟩ by decide] at this
+  have hc2 : WFComment (some ⟨"the header"⟩) := by
+    intro x hx; cases hx
+    have := parsed_comment_normal "# the header"
+    rwa [show Comment.ofString "# the header" = ⟨"the header"⟩ by decide] at this
+  intro d hd
+  simp only [List.mem_singleton] at hd
+  subst hd
+  exact .struct none "Ef" _ none _ (by simp [structDispositions]) hEf (by simp) (by
+    intro m hm; simp only [List.mem_singleton] at hm; subst hm
+    exact .mk (.inlinePlaceholder "Ab" none) _ (.bare _ (.unnamedInline "Ab" hAb)) hc2) .none hc1
+
+/-- and the model indeed prints and re-reads it -/
+example : Printer.print [documentedStruct] =
+    "# an entity\n#\n# [v2] second paragraph\nstruct Ef\n\t# the header\n\tinline Ab\n" := by decide
+
+example : (parseString "# an entity\n#\n# [v2] second paragraph\nstruct Ef\n\t# the header\n\tinline Ab\n").toOption =
+    some [documentedStruct] := by decide
 
 end SymbolVerif.C04
